@@ -27,7 +27,7 @@ ALPHABET = (["connect-ok", "connect-pubkey", "connect-refused", "connect-nokeys"
             + ["push-dir", "stream-create", "stream-next"] + ["connect-keytimeout", "pull-bytesio", "push-bytesio"])
 CONNECT_FAILS = ["connect-refused", "connect-nokeys", "connect-silent", "connect-keytimeout", "connect-stls"]
 NBASE = len(ALPHABET)        # the exhaustive enumeration runs over these; the symbols below appear in directed and random sequences only
-EXTRA = ["connect-stls", "pull-newdir", "pull-newdir-empty", "pushdir-empty", "shell-emptycmd", "exec_out-emptycmd", "streaming_shell-emptycmd", "shell-blankcmd", "connect-maxdata0", "push-fail", "connect-oddbanner", "reboot-fastboot"]
+EXTRA = ["connect-stls", "pull-newdir", "pull-newdir-empty", "pushdir-empty", "shell-emptycmd", "exec_out-emptycmd", "streaming_shell-emptycmd", "shell-blankcmd", "connect-maxdata0", "push-fail", "connect-oddbanner", "reboot-fastboot", "connect-maxdata2m", "stream-start", "stream-drop"]
 ALPHABET = ALPHABET + EXTRA
 
 
@@ -46,6 +46,8 @@ def gen_cases(tier, seed):
         for gone in ["close"] + CONNECT_FAILS:
             directed.append(["connect-ok", op, gone, op])
             directed.append(["connect-pubkey", op, op, gone, op, "connect-ok", op])
+    directed += [["connect-ok", "stream-start", "close", "stream-drop"], ["connect-ok", "stream-start", "connect-refused", "stream-drop", "shell"], ["connect-ok", "stream-start", "stream-drop", "shell"],
+                 ["connect-pubkey", "stream-start", "stream-start", "connect-silent", "stream-drop"], ["connect-ok", "stream-start", "close", "connect-ok", "stream-drop", "shell"]]
     for x in EXTRA:
         directed += [[x], ["connect-ok", x], ["connect-ok", "close", x], ["connect-pubkey", x, "close", x]] + [["connect-ok", g, x] for g in CONNECT_FAILS]
         directed += [[x, "shell"], [x, "reboot-fastboot", "shell"], ["connect-ok", x, "shell", "stat"], ["connect-ok", "connect-maxdata0", x, "shell"], ["connect-maxdata0", x, "push", "close", "shell"]]
@@ -118,9 +120,9 @@ def run_sequence(impl, seq, stats, tmp):
                 sim.silent = False
                 sim.auth = simdev.AuthPlan()
                 sess.core.refuse_connect = None
-                sim.maxdata = 0 if name == "connect-maxdata0" else 4096       # (a device may announce maxdata 0: the connection is still a connection)
+                sim.maxdata = 0 if name == "connect-maxdata0" else (2 * 1024 * 1024 if name == "connect-maxdata2m" else 4096)       # (a device may announce maxdata 0, or more than this host offers: the connection is still a connection)
                 kw = {"transport_timeout_s": 1.0, "read_timeout_s": 1.0}
-                expect_ok = name in ("connect-ok", "connect-pubkey", "connect-maxdata0", "connect-oddbanner")
+                expect_ok = name in ("connect-ok", "connect-pubkey", "connect-maxdata0", "connect-oddbanner", "connect-maxdata2m")
                 # (whatever the device writes into its CNXN banner -- nothing, no colons, '=' inside a value, bytes that are not text -- the handshake is complete)
                 sim.banner = DEFAULT_BANNER if name != "connect-oddbanner" else ODD_BANNERS[(i + len(seq) + sum(seq)) % len(ODD_BANNERS)]
                 cb_seen = []
@@ -190,6 +192,39 @@ def run_sequence(impl, seq, stats, tmp):
                 sim.scripts[b"shell:deferred-cmd"] = [b"line1", b"line2"]
                 if len(sess.core.written) != before_written:
                     viol.append({"mechanism": "bytes-written", "detail": "%s: creating the streaming_shell generator wrote %d bytes" % (where, len(sess.core.written) - before_written)})
+            elif name in ("stream-start", "stream-drop"):
+                # a streaming_shell generator that has been started (first item taken) and is then dropped -- possibly after the connection went away:
+                # dropping it (close() / aclose(), what garbage collection does) never writes to a transport that is not connected
+                if name == "stream-start":
+                    if model:
+                        sim.scripts[b"shell:held-cmd"] = [b"h1", b"h2", b"h3"]
+                        try:
+                            g = sess.dev.streaming_shell("held-cmd", decode=False)
+                            if impl == "sync":
+                                first = next(g)
+                            else:
+                                first = sess.loop.run_until_complete(g.__anext__())
+                            held = runner.__dict__.setdefault("_held", [])
+                            held.append(g)
+                            if first != b"h1":
+                                viol.append({"mechanism": "connected-op:wrong-output", "detail": "%s: first item %r" % (where, first)})
+                            stats["steps_connected"] += 1
+                        except Exception as e:  # noqa
+                            viol.append({"mechanism": "connected-op:stream-start", "detail": "%s: %s: %s" % (where, type(e).__name__, str(e)[:80])})
+                    else:
+                        names[-1] += "(skipped: not connected)"
+                else:
+                    for g in runner.__dict__.pop("_held", []):
+                        try:
+                            if impl == "sync":
+                                g.close()
+                            else:
+                                sess.loop.run_until_complete(g.aclose())
+                        except Exception:  # noqa  (whether dropping a dead generator raises is not specified)
+                            pass
+                        stats["held_generators_dropped"] = stats.get("held_generators_dropped", 0) + 1
+                        if not model and len(sess.core.written) != before_written:
+                            viol.append({"mechanism": "bytes-written", "detail": "%s: dropping a suspended streaming_shell generator while not connected wrote %d bytes" % (where, len(sess.core.written) - before_written)})
             elif name == "stream-next":
                 g = pending_gen[0]
                 pending_gen[0] = None
